@@ -162,6 +162,10 @@ def case_strategy(with_js=True):
                 return False
             if not all(part.isidentifier() for part in cm["file"][:-3].split("/")):
                 return False            # not importable (space, dash, dot in the path)
+            if sum(1 for f in files if os.path.basename(f["path"]) == os.path.basename(cm["file"])) > 1:
+                # two modules with the same base name: which one `from modA import f` denotes depends on lian's import
+                # search order (an import-resolution question, C07), so such a module is never imported here
+                return False
             sym = cm["cls"] or cm["name"]
             # the imported symbol must not clash with a name defined in the importing file or imported from elsewhere
             defined = {M[x]["name"] for x in cf["methods"]} | {M[x]["cls"] for x in cf["methods"] if M[x]["cls"]}
@@ -897,7 +901,7 @@ def main(tier, seed, t0):
         record_case(col, rec["case"])
         col.label("replayed")
     _lianrun().cleanup_scratch()
-    total = 640 if tier == "quick" else 20000
+    total = 512 if tier == "quick" else 20000
     nsh = 16 if tier == "quick" else 64        # fixed: the explored set must not depend on the core count
     per = total // nsh + 1
     args = [(common.shard_seed(seed, i), per, True) for i in range(nsh)]
